@@ -342,7 +342,8 @@ PROPS["C08"] = {
     "level_text": "Generated-configuration search with an ordering invariant over the Stopped stamps of the whole tree.",
     "level_note": "the interleaving of overlapping stop requests with the clean-up of the tree is sampled by the Go runtime (real goroutines), not owned; findings F7, F17, F18 (fixed) were found and are guarded by this leg",
     "assumptions": ENG_ASSUME + ["no handler panics inside Stopped"],
-    "legs": [plain("known", "tree", "TestKnownF7"), rapid("tree", "tree", "TestTree", 2000, 40000, shards=(2, 12))],
+    "legs": [plain("known", "tree", "TestKnownF7"), rapid("tree", "tree", "TestTree", 2000, 40000, shards=(2, 12)),
+             rapid("respawn", "tree", "TestRespawnChild", 600, 6000, shards=(1, 4))],
 }
 
 SCHED_ASSUME = [
